@@ -32,22 +32,87 @@ def _mentions_label_outside_offset(line, labels):
     return any(t in labels for t in toks[1:])
 
 
-def cls_stale_decision(case):
-    """KF-A: an `li`, or an instruction matched by a compression rule at decision time, whose
-    consulted immediate mentions a label other than through a branch/jump %offset"""
+def _failing_line(case):
+    """text of the source line a failure was reported on (checks pass it as case['line'])"""
+    return (case.get('line') or '').split('#')[0].strip()
+
+
+def cls_li_offset(case):
+    """KF-D: the failing line is an `li` whose operand contains %offset (in its two-instruction form
+    the %lo part is evaluated at the second instruction's own position)"""
+    t = _failing_line(case).lower()
+    return t.startswith('li ') and '%offset' in t
+
+
+def cls_li_label_arith(case):
+    """KF-A (li): the failing line is an `li` whose operand combines a label with an arithmetic
+    operator, so the early width decision can go stale"""
+    t = _failing_line(case)
+    if not t.lower().startswith('li '):
+        return False
     labels = _label_names(case)
-    return any(_mentions_label_outside_offset(l, labels) for l in _program_lines(case))
+    operand = t.split(None, 2)[2] if len(t.split(None, 2)) > 2 else ''
+    has_label = any(tok in labels for tok in re.split(r'[^A-Za-z0-9_]+', operand))
+    return has_label and any(op in operand for op in '+-*/&|^~<>') and '%offset' not in operand.replace('-', '')
 
 
-def cls_label_arith_range(case):
-    """KF-B: a non-%offset instruction immediate mentioning a label in a range-checked context"""
-    return cls_stale_decision(case)
+def cls_compress_label_imm(case):
+    """KF-A (-c): with compression on, the failing line is a non-branch instruction whose immediate
+    mentions a label: the compression rule consulted a value that later moved"""
+    if not case.get('compress', True):
+        return False
+    labels = _label_names(case)
+    return _mentions_label_outside_offset(_failing_line(case), labels)
 
 
 CLASSES = {
-    'stale-decision': cls_stale_decision,
-    'label-arith-range': cls_label_arith_range,
+    'li-offset': cls_li_offset,
+    'li-label-arith': cls_li_label_arith,
+    'compress-label-imm': cls_compress_label_imm,
 }
+
+
+def witness_still_fails(f):
+    """re-run the pinned witness of a finding against the current tree; True = it still fails,
+    False = it no longer fails (then no KNOWN-FINDING line is printed), None = no witness/unknown"""
+    path = os.path.join(common.VERIF, f.get('witness', ''))
+    if not f.get('witness') or not os.path.exists(path):
+        return None
+    w = json.load(open(path))
+    from harness import progs, oracle, sem_check
+    asm = progs.get_asm()
+    chk = w.get('check') or {}
+    kind = chk.get('kind')
+    try:
+        if kind == 'reg_after_line':
+            res = progs.assemble_chunks(asm, w['program'], w.get('compress', False))
+            if res.status != 'ok':
+                return True
+            by, _ = progs.chunks_by_line(res.chunks)
+            parts = by.get(chk['line'], [])
+            off = parts[0][0]
+            code = b''.join(d for _, d in parts)
+            r, = common.drv(['run %s %d %d 5 %d' % (code.hex(), off, off, len(parts))])
+            regs = sem_check.parse_run(r)[3]
+            lab = res.labels
+            expect = eval(chk['expect'], {'__builtins__': None}, dict(lab, OFF=off)) % (1 << 32)
+            return regs[chk['reg']] != expect
+        if kind == 'fails_only_with_c':
+            a = progs.assemble_chunks(asm, w['program'], False)
+            b = progs.assemble_chunks(asm, w['program'], True)
+            return a.status == 'ok' and b.status != 'ok'
+        if kind == 'grows_with_c':
+            a = progs.assemble_chunks(asm, w['program'], False)
+            b = progs.assemble_chunks(asm, w['program'], True)
+            return a.status == 'ok' and b.status == 'ok' and len(b.bytes) > len(a.bytes)
+        if kind == 'python':
+            # a self-contained predicate over (asm) returning True when the defect is present
+            env = {'asm': asm, 'progs': progs}
+            exec(chk['code'], env)
+            return bool(env['still_fails']())
+    except Exception as e:          # a witness that cannot even be evaluated counts as unknown
+        return None
+    return None
 
 
 class Known:
@@ -66,5 +131,9 @@ class Known:
 
     def report(self, rep):
         for f in self.findings:
+            st = witness_still_fails(f)
+            if st is False:
+                # the pinned witness passes on this tree: say nothing (a fixed defect is not a finding)
+                continue
             rep.known_finding('{} class={} :: {} (suppressed {} matching failures in this run)'.format(
                 f.get('id'), f.get('class'), f.get('what'), self.hits.get(f['id'], 0)))
